@@ -743,6 +743,13 @@ func replayCase(sub string, raw json.RawMessage) string {
 			return "bad replay: " + err.Error()
 		}
 		msg, _ = checkLaw(c)
+	case "consumer-defn":
+		var c consCase
+		if err := json.Unmarshal(raw, &c); err != nil {
+			return "bad replay: " + err.Error()
+		}
+		m, _ := checkCons(c)
+		return m
 	case "path-model", "update-model", "builtins", "general":
 		var c qCase
 		if err := json.Unmarshal(raw, &c); err != nil {
@@ -778,6 +785,69 @@ type pathGen struct{}
 func pathExpr(t *rapid.T) string {
 	// reuse the shared path grammar through a throw-away program generator
 	return gen.PathExprOnly(3).Draw(t, "pathexpr")
+}
+
+// refDefs: the defining reductions of the jq-defined path consumers, written
+// from the manual with other names (independent of builtin.jq, which a change
+// may alter together with its precompiled form).
+const refDefs = `
+def r_paths: path(..) | select(length > 0);
+def r_paths(f): . as $in | r_paths | select(. as $p | $in | getpath($p) | f);
+def r_leaf_paths: r_paths(type != "array" and type != "object");
+def r_to_entries: . as $in | [keys[] as $k | {key: $k, value: $in[$k]}];
+def r_with_entries(f): r_to_entries | map(f) | from_entries;
+def r_map_values(f): .[] |= f;
+def r_del(p): delpaths([path(p)]);
+def r_pick(p): . as $v | reduce path(p) as $q (null; setpath($q; $v | getpath($q)));
+def r_tostream:
+  . as $dot
+  | if (type != "array" and type != "object") or length == 0 then [[], $dot]
+    else keys as $keys | $keys[-1] as $last
+      | (($keys[] | . as $key | $dot[$key] | r_tostream | .[0] |= [$key] + .), [[$last]])
+    end;
+`
+
+type consCase struct {
+	Builtin string `json:"builtin"` // e.g. "[tostream]"
+	Ref     string `json:"ref"`     // e.g. "[r_tostream]"
+	Input   univ.V `json:"input"`
+}
+
+// checkCons: the builtin and its defining reduction, both run by gojq on the
+// same input, give the same outputs (and both fail or neither).
+func checkCons(c consCase) (msg, discard string) {
+	qb, err := gojq.Parse(c.Builtin)
+	if err != nil {
+		return "", "parse-error"
+	}
+	qr, err := gojq.Parse(refDefs + c.Ref)
+	if err != nil {
+		return "bad reference query: " + err.Error(), ""
+	}
+	cb, err := gojq.Compile(qb)
+	if err != nil {
+		return "", "compile-error"
+	}
+	cr, err := gojq.Compile(qr)
+	if err != nil {
+		return "", "compile-error"
+	}
+	// resource guard: the model runs first
+	if d := model.Run(qb, univ.Copy(c.Input.X), nil, fuel, maxOuts).Discard(); strings.HasPrefix(d, "resource") || d == "fuel" {
+		return "", d
+	}
+	got := run.Exec(cb, univ.Copy(c.Input.X), steps, maxOuts)
+	want := run.Exec(cr, univ.Copy(c.Input.X), steps*8, maxOuts)
+	if got.Panic != "" || want.Panic != "" {
+		return "panic: " + got.Panic + want.Panic, ""
+	}
+	if got.Budget || want.Budget {
+		return "", "budget"
+	}
+	if !univ.EqualStreams(got.Vals, want.Vals) || (got.Err == nil) != (want.Err == nil) {
+		return fmt.Sprintf("%s gives %s err=%v, its defining reduction %s gives %s err=%v", c.Builtin, univ.ShowAll(got.Vals), got.Err, c.Ref, univ.ShowAll(want.Vals), want.Err), ""
+	}
+	return "", ""
 }
 
 func finish(t *rapid.T, sub string, c any, key string, nontrivial bool, msg, discard string) {
@@ -1005,6 +1075,32 @@ func TestC02(t *testing.T) {
 		rec.Sample(c)
 		msg, d := checkModel(c)
 		finish(t, "builtins", c, q+univ.Show(in), true, msg, d)
+	})
+
+	// the same consumers against their defining reductions written from the
+	// manual (independent of builtin.jq), both sides run by gojq
+	rec.Rapid(t, "consumer-defn", rec.Scale(30000, 1500000), func(t *rapid.T) {
+		in := inputs.Draw(t, "input")
+		if rapid.IntRange(0, 3).Draw(t, "shape") == 0 {
+			// empty containers and nesting of them are leaves of their own kind
+			in = rapid.SampledFrom([]any{[]any{}, map[string]any{}, []any{[]any{}}, map[string]any{"a": []any{}, "b": 1}, []any{map[string]any{}, []any{}, 1}, map[string]any{"a": map[string]any{"b": map[string]any{}}},
+				[]any{[]any{[]any{}}, map[string]any{"x": []any{}}}, map[string]any{"a": nil, "b": []any{nil, []any{}}}, nil, 1, "s", []any{nil}, map[string]any{"": map[string]any{}}}).Draw(t, "empties")
+		}
+		p := pathExpr(t)
+		b := rapid.SampledFrom(bodies).Draw(t, "body").src
+		f := rapid.SampledFrom([]string{"type == \"number\"", ". == null", "type == \"array\"", "length? > 0", "true", "false", "empty", "., ."}).Draw(t, "f")
+		pairs := [][2]string{{"[tostream]", "[r_tostream]"}, {"[paths]", "[r_paths]"}, {"[paths(" + f + ")]", "[r_paths(" + f + ")]"}, {"[leaf_paths]", "[r_leaf_paths]"}, {"to_entries", "r_to_entries"},
+			{"with_entries(.)", "r_with_entries(.)"}, {"with_entries(.value |= " + b + ")", "r_with_entries(.value |= " + b + ")"}, {"with_entries(select(.value != null))", "r_with_entries(select(.value != null))"},
+			{"map_values(" + b + ")", "r_map_values(" + b + ")"}, {"map_values(empty)", "r_map_values(empty)"}, {"del(" + p + ")", "r_del(" + p + ")"}, {"pick(" + p + ")", "r_pick(" + p + ")"},
+			{"fromstream(tostream)", "fromstream(r_tostream)"}, {"[tostream] | length", "[r_tostream] | length"}, {"[.[]? | tostream]", "[.[]? | r_tostream]"}, {"[paths(..)]?", "[r_paths(..)]?"}}
+		pr := pairs[rapid.IntRange(0, len(pairs)-1).Draw(t, "pair")]
+		c := consCase{Builtin: pr[0], Ref: pr[1], Input: univ.V{X: in}}
+		rec.Eval()
+		rec.Journal("consumer-defn", c)
+		rec.Class("consumer-defn/" + strings.SplitN(strings.TrimLeft(pr[0], "[("), "(", 2)[0])
+		rec.Sample(c)
+		msg, d := checkCons(c)
+		finish(t, "consumer-defn", c, pr[0]+univ.Show(in), true, msg, d)
 	})
 
 	// general programs with update operators against the model
